@@ -23,8 +23,9 @@
 From CJ Require Import Base Dbl Heap Forest ForestLemmas CoreDefs CoreRefineBase CoreRefineAddObject CoreRefineDupValue CoreRefineDupForest CoreLedgerGen.
 From CJ Require Import TierBridgeDefs MergeHeapDefs MergeHeapInv MergeHeapEx GenMergeHeapDefs GenMergeHeapForest GenMergeHeapEx
   PatchHeapDefs PatchHeapPointer PatchHeapSteps.
-From CJ Require Import GenPatchHeapDefs GenPatchHeapBytes GenPatchHeapSteps GenPatchHeapCompose GenPatchHeapEx.
-From CJ Require Tree CoreOps PointerDefs PatchDefs SortSpec.
+From CJ Require Import PatchHeapApplyDefs PatchHeapTest GenPatchHeapDefs GenPatchHeapBytes GenPatchHeapSteps GenPatchHeapCompose GenPatchHeapProofs
+  GenPatchHeapEntry GenPatchHeapRound GenPatchHeapEx.
+From CJ Require Tree CoreOps PointerDefs PatchDefs SortSpec CoreRefineFrame Rfc6902 PatchConform PatchApply PatchExact PatchHeapLoop GenPatchHeapValue.
 From CJ.gen Require Import Constants.
 From stdpp Require Import gmap.
 Local Open Scope Z_scope.
@@ -187,3 +188,333 @@ Theorem C17_heap_compose_example_is :
   gx_compose_after = out_heap gx_compose_run gx_heap /\ MInv gx_heap gx_F /\ NoLeak gx_heap gx_F /\ gx_F = gx_A ++ [gx_arr].
 Proof. exact (conj eq_refl (conj eq_refl (conj gx_MInv (conj gx_NoLeak eq_refl)))). Qed.
 Print Assumptions C17_heap_compose_example_is.
+
+(** ------------------------------------------------------------------ 3.-5. create_patches *)
+
+(** vocabulary: [path_ok V F c]: the string argument [c] is a literal, or a block outside the forest that is not one
+    of the volatile blocks [V] (the caller's [new_path]); [treord], [Frame], [gdoc], [tdisj] as in Properties_C18_Heap.v *)
+Theorem C17_heap_path_ok_is : forall V F c,
+  path_ok V F c <-> (forall b off, c = CAt b off -> b ∉ owned F /\ b ∉ V).
+Proof. exact (fun V F c => conj (fun H => H) (fun H => H)). Qed.
+
+(** STAGES 3-5, MAIN THEOREM.  [create_patches(patches, path, from, to, case_sensitive)] at EVERY level of the recursion
+    and for any sufficient fuel ([df] bounds the nesting of [from], [lf] the sibling chains and the heap-level sort):
+    the patches array is the LAST root [T x d pcs] of the forest [(G ++ X) ++ [T x d pcs]] ([X] a passive part);
+    [from] and [to] nodes of [G] with disjoint subtrees, JSON documents in the sense of [gdoc], [to] nested at most
+    CJSON_CIRCULAR_LIMIT deep (cJSON_Duplicate), [from] with at most SIZE_MAX nodes (array indices are [size_t]);
+    [path] a readable literal or a block outside the forest (the caller's [new_path]); never-failing allocator.  Then
+      - the run returns normally (no memory-error outcome: in particular every [sprintf] and every byte written by
+        [encode_string_as_pointer] lies inside its cJSON_malloc'ed block, every [strcmp] reads terminated strings);
+      - the array has new elements [pnew]; the invariant holds for [(G' ++ X) ++ [T x d (pcs ++ pnew)]];
+      - the call is a [Step] WITHOUT volatile blocks: every [new_path] / [full_path] block has been released, the
+        caller's path block and every string the forest owned are untouched, every live library block is owned by the
+        new forest or was live and outside the forest before ([C17_heap_step_is]);
+      - [G'] differs from [G] only inside [from] and [to] ([Frame]), which are reorderings of themselves ([treord]);
+      - whatever list [ps] the value-level model is run with, it appends exactly the reified [pnew] and returns the
+        reified operands: type mismatch / numbers / strings -> "replace"; arrays -> the index loop, "remove" at the
+        index of the first surplus element for every surplus element of [from], "add" at "-"; objects -> both sorted in
+        place, the merge walk, recursion under "path/encoded-name". *)
+Theorem C17_heap_create_patches : forall (df lf : nat) (flag : bool) tf tu h G X x d pcs path pnm,
+  (tsize tf <= df)%nat ->
+  MInv h ((G ++ X) ++ [T x d pcs]) -> find_tree (tid tf) G = Some tf -> find_tree (tid tu) G = Some tu -> tdisj tf tu ->
+  (tsize tf + tsize tu < lf)%nat -> gdoc tf -> gdoc tu -> (height tu <= Z.to_nat c_CJSON_CIRCULAR_LIMIT)%nat ->
+  Z.of_nat (tsize tf) <= PointerDefs.SIZE_MAX ->
+  CsReads h path pnm -> path_ok [] ((G ++ X) ++ [T x d pcs]) path ->
+  exists h' G' pnew tf' tu',
+    create_patches_fuel nofail df lf (Some x) path (Some (tid tf)) (Some (tid tu)) flag h = Ret (tt, h') /\
+    MInv h' ((G' ++ X) ++ [T x d (pcs ++ pnew)]) /\
+    Step [] h ((G ++ X) ++ [T x d pcs]) h' ((G' ++ X) ++ [T x d (pcs ++ pnew)]) /\
+    Frame G G' (ids_t tf ++ ids_t tu) /\
+    find_tree (tid tf) G' = Some tf' /\ find_tree (tid tu) G' = Some tu' /\ treord tf tf' /\ treord tu tu' /\
+    forall fv ps, (height tf < fv)%nat ->
+      PatchDefs.create_patches fv ps pnm (reify (h_str h) tf) (reify (h_str h) tu) flag =
+      Ok (ps ++ map (reify (h_str h')) pnew, reify (h_str h) tf', reify (h_str h) tu').
+Proof.
+  exact (fun df lf flag tf tu h G X x d pcs path pnm Hdf I Hf Ht Hd Hlf Gf Gt Hh Hm Hp Hok =>
+           create_rec df lf flag tf tu h G X x d pcs path pnm Hdf
+             (conj I (conj Hf (conj Ht (conj Hd (conj Hlf (conj Gf (conj Gt (conj Hh (conj Hm (conj Hp Hok))))))))))).
+Qed.
+Print Assumptions C17_heap_create_patches.
+
+(** the pieces: [case cJSON_Array] — the three loops with the temporary [new_path] = block [B] of [|path| + 22] bytes
+    alive ([AState]: invariant, readable path outside [B], [B] a live library block of that size outside the forest);
+    the result heap is the heap [h2] before the final cJSON_free(new_path), with [B] released.  The "remove" loop uses
+    the index of the first surplus element for EVERY surplus element ([vremoves] folds over the elements without
+    advancing it): after each removal the next surplus element has moved down to that index. *)
+Theorem C17_heap_array_state_is : forall X x d path pnm B h G pcs,
+  AState X x d path pnm B h G pcs <->
+  MInv h ((G ++ X) ++ [T x d pcs]) /\ CsReads h path pnm /\ path_ok [B] ((G ++ X) ++ [T x d pcs]) path /\
+  Tmp h ((G ++ X) ++ [T x d pcs]) B (length pnm + 20 + 2).
+Proof. exact (fun X x d path pnm B h G pcs => conj (fun H => H) (fun H => H)). Qed.
+Theorem C17_heap_tmp_is : forall h F B n,
+  Tmp h F B n <-> B ∈ h_live h /\ h_own h !! B = Some Lib /\ B ∉ owned F /\ exists s : bytes, h_str h !! B = Some s /\ length s = n.
+Proof. exact (fun h F B n => conj (fun H => H) (fun H => H)). Qed.
+
+Theorem C17_heap_remove_loop : forall X x d f fd path pnm B rest_f pre_f (nfuel : nat) index h G pcs,
+  0 <= index <= PointerDefs.SIZE_MAX -> (length rest_f < nfuel)%nat -> AState X x d path pnm B h G pcs ->
+  find_tree f G = Some (T f fd (pre_f ++ rest_f)) ->
+  exists h' pnew,
+    cp_remove_loop nofail (Some x) path (Some B) nfuel index ((tid <$> (pre_f ++ rest_f)) !! length pre_f) h = Ret (Some tt, h') /\
+    AState X x d path pnm B h' G (pcs ++ pnew) /\
+    Step [B] h ((G ++ X) ++ [T x d pcs]) h' ((G ++ X) ++ [T x d (pcs ++ pnew)]) /\
+    forall ps (l : list Tree.node), length l = length rest_f -> vremoves pnm ps index l = ps ++ map (reify (h_str h')) pnew.
+Proof. exact remove_loop_sim. Qed.
+Print Assumptions C17_heap_remove_loop.
+Theorem C17_heap_vremoves_is : forall path ps index lf,
+  vremoves path ps index lf =
+  fold_left (fun acc _ => PatchDefs.compose_patch acc PatchDefs.s_remove path (Some (PointerDefs.print_lu index)) None) lf ps.
+Proof. exact (fun _ _ _ _ => eq_refl). Qed.
+
+Theorem C17_heap_add_loop : forall X x d t td path pnm B rest_t pre_t (nfuel : nat) index h G pcs,
+  (length rest_t < nfuel)%nat -> AState X x d path pnm B h G pcs ->
+  find_tree t G = Some (T t td (pre_t ++ rest_t)) ->
+  (forall c, c ∈ rest_t -> (height c <= Z.to_nat c_CJSON_CIRCULAR_LIMIT)%nat) ->
+  exists h' pnew,
+    cp_add_loop nofail (Some x) path nfuel index ((tid <$> (pre_t ++ rest_t)) !! length pre_t) h = Ret (tt, h') /\
+    AState X x d path pnm B h' G (pcs ++ pnew) /\
+    Step [] h ((G ++ X) ++ [T x d pcs]) h' ((G ++ X) ++ [T x d (pcs ++ pnew)]) /\
+    forall ps, vadds pnm ps (map (reify (h_str h)) rest_t) = ps ++ map (reify (h_str h')) pnew.
+Proof. exact add_loop_sim. Qed.
+Print Assumptions C17_heap_add_loop.
+
+(** the heap-level sort of one operand, as create_patches uses it: in place, a [Step], the value-level sort_object *)
+Theorem C17_heap_sort_operand : forall h G X o dd cs (flag : bool) (fuel : nat),
+  MInv h (G ++ X) -> find_tree o G = Some (T o dd cs) ->
+  (forall c, c ∈ cs -> rd_key (tdata c) <> None) -> (length cs + 2 <= fuel)%nat ->
+  let cs' := TierBridgeDefs.sort_children (h_str h) flag cs in
+  let G' := set_children o cs' G in
+  exists h', SortDefs.sort_object fuel (Some o) flag h = Ret (tt, h') /\
+    MInv h' (G' ++ X) /\ Step [] h (G ++ X) h' (G' ++ X) /\ h_str h' = h_str h /\
+    find_tree o G' = Some (T o dd cs') /\ Frame G G' [o] /\ cs' ≡ₚ cs /\
+    PatchDefs.sort_object (reify (h_str h) (T o dd cs)) flag = Ok (reify (h_str h) (T o dd cs')).
+Proof. exact step_sort_p. Qed.
+Print Assumptions C17_heap_sort_operand.
+
+(** non-vacuity of stages 3-5: create_patches(arr, "/x", a, b, true) RUN on [gx_heap] for pairs of nodes of the two
+    documents; the array read back by the structural walk is the array the value-level model builds *)
+Theorem C17_heap_stage3_example_runs :
+  gx_cp_dump gx_p 2 26 = gx_cp_model gx_p 2 26 /\ gx_cp_count gx_p 2 26 = Some 1%nat /\
+  gx_cp_dump gx_p 2 22 = gx_cp_model gx_p 2 22 /\ gx_cp_count gx_p 2 22 = Some 0%nat /\
+  gx_cp_dump gx_p 7 22 = gx_cp_model gx_p 7 22 /\ gx_cp_count gx_p 7 22 = Some 1%nat /\
+  gx_cp_dump gx_p 10 30 = gx_cp_model gx_p 10 30 /\ gx_cp_count gx_p 10 30 = Some 1%nat /\
+  gx_cp_dump gx_p 7 24 = gx_cp_model gx_p 7 24 /\ gx_cp_count gx_p 7 24 = Some 1%nat /\
+  gx_cp_dump gx_p 28 30 = gx_cp_model gx_p 28 30 /\ gx_cp_count gx_p 28 30 = Some 0%nat.
+Proof. exact gx_stage3_runs. Qed.
+Theorem C17_heap_stage4_example_runs :
+  gx_cp_dump gx_p 3 21 = gx_cp_model gx_p 3 21 /\ gx_cp_count gx_p 3 21 = Some 2%nat /\
+  gx_cp_dump gx_p 21 3 = gx_cp_model gx_p 21 3 /\ gx_cp_count gx_p 21 3 = Some 2%nat /\
+  gx_cp_dump gx_p 3 27 = gx_cp_model gx_p 3 27 /\ gx_cp_count gx_p 3 27 = Some 3%nat /\
+  forallb (fun b => bool_decide (b ∉ h_live (out_heap (gx_cp gx_p 3 27) gx_heap))) [1000; 1014; 1022]%positive = true /\
+  elements (lib_live gx_heap ∖ lib_live (out_heap (gx_cp gx_p 3 27) gx_heap)) = [].
+Proof. exact gx_stage4_runs. Qed.
+Theorem C17_heap_stage5_example_runs :
+  gx_cp_dump gx_p 8 25 = gx_cp_model gx_p 8 25 /\ gx_cp_count gx_p 8 25 = Some 2%nat /\
+  gx_cp_dump [] 1 20 = gx_cp_model [] 1 20 /\ gx_cp_count [] 1 20 = Some 8%nat /\
+  (match PatchDefs.create_patches (Tree.node_depth (gx_node gx_F 1)) [] [] (gx_node gx_F 1) (gx_node gx_F 20) true with
+   | Ok (_, f', t') =>
+       out_val (CoreOps.dump_node 50 (Some 1%positive) (out_heap (gx_cp [] 1 20) gx_heap)) = Some (Some (f', true)) /\
+       out_val (CoreOps.dump_node 50 (Some 20%positive) (out_heap (gx_cp [] 1 20) gx_heap)) = Some (Some (t', true)) /\
+       f' <> gx_node gx_F 1
+   | _ => False
+   end) /\
+  elements (lib_live gx_heap ∖ lib_live (out_heap (gx_cp [] 1 20) gx_heap)) = [].
+Proof. exact gx_stage5_runs. Qed.
+Theorem C17_heap_stage345_example_is : forall path a b,
+  gx_cp path a b = create_patches nofail (Some 50%positive) (CLit path) (Some a) (Some b) true gx_heap /\
+  gx_cp_dump path a b = out_val (CoreOps.dump_node 50 (Some 50%positive) (out_heap (gx_cp path a b) gx_heap)) /\
+  gx_cp_model path a b =
+    match PatchDefs.create_patches (Tree.node_depth (gx_node gx_F a)) [] path (gx_node gx_F a) (gx_node gx_F b) true with
+    | Ok (ps, _, _) => Some (Some (PatchDefs.set_children PatchDefs.create_array ps, true))
+    | _ => None
+    end.
+Proof. exact (fun path a b => conj eq_refl (conj eq_refl eq_refl)). Qed.
+
+(** ------------------------------------------------------------------ 6. the entry points, the ledger, the round trip *)
+
+(** STAGE 6a.  [cJSONUtils_GeneratePatches[CaseSensitive](from, to)] with the fuel the entry points take from the heap,
+    for two non-NULL nodes with disjoint subtrees that are [gdoc], [to] nested at most LIMIT deep, [from] with at most
+    SIZE_MAX nodes: no memory-error outcome; the result is a NEW last root [res] of a well-formed forest [F' ++ [res]];
+    [F'] differs from [F] only inside [from] and [to] ([Frame]), which are reorderings of themselves; the whole call is a
+    [Step] without volatile blocks (every temporary path block released, borrowed memory untouched); the reified
+    result and operands are exactly what the value-level model of C17 computes — so every theorem of Properties_C17.v
+    speaks about this run; [NoLeak] is preserved and no string of the old forest is touched. *)
+Theorem C17_heap_refines : forall (flag : bool) h F f t tf tu,
+  MInv h F -> find_tree f F = Some tf -> find_tree t F = Some tu -> tdisj tf tu ->
+  gdoc tf -> gdoc tu -> (height tu <= Z.to_nat c_CJSON_CIRCULAR_LIMIT)%nat -> Z.of_nat (tsize tf) <= PointerDefs.SIZE_MAX ->
+  exists h' F' res tf' tu',
+    generate_patches nofail (Some f) (Some t) flag h = Ret (Some (tid res), h') /\
+    MInv h' (F' ++ [res]) /\ Step [] h F h' (F' ++ [res]) /\
+    Frame F F' (ids_t tf ++ ids_t tu) /\
+    find_tree f F' = Some tf' /\ find_tree t F' = Some tu' /\ treord tf tf' /\ treord tu tu' /\
+    PatchDefs.generate_patches (reify (h_str h) tf) (reify (h_str h) tu) flag =
+      Ok (reify (h_str h') res, reify (h_str h') tf', reify (h_str h') tu') /\
+    (NoLeak h F -> NoLeak h' (F' ++ [res])) /\ KeepO h h' F.
+Proof. exact generate_patches_refines. Qed.
+Print Assumptions C17_heap_refines.
+
+Theorem C17_heap_entry_points : forall oracle from to,
+  GenPatchHeapDefs.cJSONUtils_GeneratePatches oracle from to = generate_patches oracle from to false /\
+  GenPatchHeapDefs.cJSONUtils_GeneratePatchesCaseSensitive oracle from to = generate_patches oracle from to true.
+Proof. exact generate_patches_entry_points. Qed.
+Theorem C17_value_entry_points :
+  PatchDefs.cJSONUtils_GeneratePatches = (fun from to => PatchDefs.generate_patches from to false) /\
+  PatchDefs.cJSONUtils_GeneratePatchesCaseSensitive = (fun from to => PatchDefs.generate_patches from to true).
+Proof. exact (conj eq_refl eq_refl). Qed.
+
+(** NULL arguments, for EVERY allocator: NULL is returned and nothing is touched *)
+Theorem C17_heap_null_arguments : forall oracle (from to : ptr) flag h,
+  from = None \/ to = None -> generate_patches oracle from to flag h = Ret (None, h).
+Proof. exact generate_patches_null. Qed.
+
+(** "a NEW last root" *)
+Theorem C17_heap_result_is_new_root : forall h G r,
+  MInv h (G ++ [r]) -> find_root (tid r) (G ++ [r]) = Some r /\ tid r ∉ ids G.
+Proof. exact result_is_new_root. Qed.
+
+(** THE LEDGER, exactly: before the call the live library blocks are those of the forest; afterwards those of the
+    forest and of the result, and the two sets are disjoint — the blocks of the result are the only new ones, every
+    [new_path] / [full_path] block and every superseded name copy has been released; the strings of the forest keep
+    their contents; live blocks outside the forest (borrowed memory) are still live with the same contents *)
+Theorem C17_heap_ledger : forall (flag : bool) h F f t tf tu,
+  MInv h F -> NoLeak h F -> find_tree f F = Some tf -> find_tree t F = Some tu -> tdisj tf tu ->
+  gdoc tf -> gdoc tu -> (height tu <= Z.to_nat c_CJSON_CIRCULAR_LIMIT)%nat -> Z.of_nat (tsize tf) <= PointerDefs.SIZE_MAX ->
+  exists h' F' res,
+    generate_patches nofail (Some f) (Some t) flag h = Ret (Some (tid res), h') /\
+    WF h' (F' ++ [res]) /\ NoLeak h' (F' ++ [res]) /\
+    (forall b, b ∈ lib_live h <-> b ∈ owned F) /\
+    (forall b, b ∈ lib_live h' <-> b ∈ owned F \/ b ∈ owned [res]) /\
+    (forall b, b ∈ owned F -> b ∉ owned [res]) /\
+    (forall b, b ∈ owned F -> h_str h' !! b = h_str h !! b) /\
+    (forall b (s : bytes), b ∈ h_live h -> b ∉ owned F -> h_str h !! b = Some s -> b ∈ h_live h' /\ h_str h' !! b = Some s).
+Proof. exact generate_patches_ledger. Qed.
+Print Assumptions C17_heap_ledger.
+
+(** JSON documents in the sense of C16/C17 ([dwf]: JSON types, C strings, no NaN, distinct member names) satisfy the
+    hypotheses of the heap-level theorems *)
+Theorem C17_heap_side_conditions_from_C17 : forall St t,
+  (PatchConform.dwf (reify St t) -> gdoc t) /\
+  (PatchApply.shallow (reify St t) -> (height t <= Z.to_nat c_CJSON_CIRCULAR_LIMIT)%nat) /\
+  Tree.node_size (reify St t) = tsize t.
+Proof. exact (fun St t => conj (dwf_gdoc St t) (conj (shallow_height St t) (node_size_reify St t))). Qed.
+Print Assumptions C17_heap_side_conditions_from_C17.
+
+(** the value-level facts the round trip needs beyond Properties_C17.v: the generated operation objects are keyed;
+    a conforming successful run of the model's loop is [run_ok] (the hypothesis of [C16_heap_apply_patches]) —
+    derived from the well-formedness of the documents, not decided by running; and [C17_roundtrip_model] for ANY
+    well-formed document that is [from] up to member order *)
+Theorem C17_value_generated_keyed : forall fuel ps path from to cs ps' f' t',
+  PatchConform.dwf to -> Forall PatchHeapLoop.vkeyed ps -> PatchDefs.create_patches fuel ps path from to cs = Ok (ps', f', t') ->
+  Forall PatchHeapLoop.vkeyed ps'.
+Proof. exact GenPatchHeapValue.create_patches_vk. Qed.
+Theorem C17_value_roundtrip_any : forall from to v, PatchConform.dwf from -> PatchConform.dwf to -> PatchApply.shallow to ->
+  2 * Z.of_nat (Tree.node_size from + Tree.node_size to) <= PointerDefs.SIZE_MAX ->
+  PatchConform.dwf v -> PatchExact.doc_same v from ->
+  exists patches f' t',
+    PatchDefs.cJSONUtils_GeneratePatchesCaseSensitive from to = Ok (patches, f', t') /\
+    PatchExact.doc_same f' from /\ Tree.is_array patches = true /\
+    (exists d p1, PatchDefs.cJSONUtils_ApplyPatchesCaseSensitive v patches = Ok (0, d, p1) /\ Rfc6902.doc_eq d to /\ PatchConform.dwf d) /\
+    PatchHeapLoop.run_ok v (Tree.n_children patches) true.
+Proof. exact GenPatchHeapValue.roundtrip_any. Qed.
+Print Assumptions C17_value_roundtrip_any.
+
+(** STAGE 6b, TRANSFER COROLLARY.  For two disjoint nodes of the forest that are JSON documents in the sense of
+    C16/C17, both nested at most CJSON_CIRCULAR_LIMIT deep, together below 2^63 nodes:
+      (1) the heap-level cJSONUtils_GeneratePatchesCaseSensitive(from, to) returns a new last root [res] (the patch
+          array); [from] — re-ordered in place — is still the same document ([doc_same]);
+      (2) cJSON_Duplicate(from, 1), run in the heap the generation ended in, returns a new root [dup], the same
+          document as [from];
+      (3) the heap-level cJSONUtils_ApplyPatchesCaseSensitive(dup, res) of PatchHeapApplyDefs.v returns 0; the duplicate
+          ([docT], same identity) now reads back as a document EQUAL to [to] ([Rfc6902.doc_eq]: arrays in order, objects
+          as name/value sets) and well-formed; [to] is still the tree generation left; the invariant holds; nothing leaked.
+    [F2 A [] [] doc rb = A ++ [rb; doc]]. *)
+Theorem C17_heap_roundtrip : forall h F f t tf tu,
+  MInv h F -> find_tree f F = Some tf -> find_tree t F = Some tu -> tdisj tf tu ->
+  let vf := reify (h_str h) tf in
+  let vt := reify (h_str h) tu in
+  PatchConform.dwf vf -> PatchConform.dwf vt -> PatchApply.shallow vf -> PatchApply.shallow vt ->
+  2 * Z.of_nat (Tree.node_size vf + Tree.node_size vt) <= PointerDefs.SIZE_MAX ->
+  exists h1 F1 res tf' tu',
+    GenPatchHeapDefs.cJSONUtils_GeneratePatchesCaseSensitive nofail (Some f) (Some t) h = Ret (Some (tid res), h1) /\
+    MInv h1 (F1 ++ [res]) /\ (NoLeak h F -> NoLeak h1 (F1 ++ [res])) /\
+    find_tree f F1 = Some tf' /\ find_tree t F1 = Some tu' /\ treord tf tf' /\ treord tu tu' /\
+    PatchExact.doc_same (reify (h_str h1) tf') vf /\
+    exists h2 dup,
+      cJSON_Duplicate nofail (Some f) true h1 = Ret (Some (tid dup), h2) /\
+      MInv h2 (F2 F1 [] [] dup res) /\ (NoLeak h F -> NoLeak h2 (F2 F1 [] [] dup res)) /\
+      PatchExact.doc_same (reify (h_str h2) dup) vf /\
+      exists h3 docT arrT,
+        PatchHeapApplyDefs.cJSONUtils_ApplyPatchesCaseSensitive nofail (Some (tid dup)) (Some (tid res)) h2 = Ret (0, h3) /\
+        MInv h3 (F2 F1 [] [] docT arrT) /\ tid docT = tid dup /\ tid arrT = tid res /\
+        (NoLeak h F -> NoLeak h3 (F2 F1 [] [] docT arrT)) /\
+        find_tree t (F2 F1 [] [] docT arrT) = Some tu' /\
+        Rfc6902.doc_eq (reify (h_str h3) docT) vt /\ PatchConform.dwf (reify (h_str h3) docT).
+Proof. exact generate_then_apply. Qed.
+Print Assumptions C17_heap_roundtrip.
+
+(** non-vacuity of stage 6.  [gx_heap2] = the forest [from; to] of [gx_heap] without the array.  Every hypothesis of
+    [C17_heap_refines], [C17_heap_ledger] and [C17_heap_roundtrip] holds on it. *)
+Theorem C17_heap_nonvacuous_hypotheses :
+  MInv gx_heap2 gx_A /\ NoLeak gx_heap2 gx_A /\
+  find_tree 1%positive gx_A = Some gx_from /\ find_tree 20%positive gx_A = Some gx_to /\ tdisj gx_from gx_to /\
+  gdoc gx_from /\ gdoc gx_to /\ (height gx_to <= Z.to_nat c_CJSON_CIRCULAR_LIMIT)%nat /\ Z.of_nat (tsize gx_from) <= PointerDefs.SIZE_MAX /\
+  PatchConform.dwf (reify (h_str gx_heap2) gx_from) /\ PatchConform.dwf (reify (h_str gx_heap2) gx_to) /\
+  PatchApply.shallow (reify (h_str gx_heap2) gx_from) /\ PatchApply.shallow (reify (h_str gx_heap2) gx_to) /\
+  2 * Z.of_nat (Tree.node_size (reify (h_str gx_heap2) gx_from) + Tree.node_size (reify (h_str gx_heap2) gx_to)) <= PointerDefs.SIZE_MAX.
+Proof. exact gx_hypotheses. Qed.
+Print Assumptions C17_heap_nonvacuous_hypotheses.
+
+(** The heap-level code RUN on it ([vm_compute]): the entry point returns the new root 1000; the patch array (8
+    operations), [from] and [to] read back by the structural walk are exactly what the value-level model returns; NULL
+    arguments return NULL with the heap untouched; no block of the operands was released; then the duplicate of [from]
+    and the heap-level cJSONUtils_ApplyPatchesCaseSensitive on it: status 0, the duplicate reads back equal to [to]
+    (both directions of the executable document equality), [to] reads back unchanged *)
+Theorem C17_heap_nonvacuous_run :
+  out_val gx_gen_run = Some (Some 1000%positive) /\
+  (match PatchDefs.cJSONUtils_GeneratePatchesCaseSensitive gx_vfrom gx_vto with
+   | Ok (patches, f', t') =>
+       out_val (CoreOps.dump_node 50 (Some 1000%positive) gx_gen_after) = Some (Some (patches, true)) /\
+       out_val (CoreOps.dump_node 50 (Some 1%positive) gx_gen_after) = Some (Some (f', true)) /\
+       out_val (CoreOps.dump_node 50 (Some 20%positive) gx_gen_after) = Some (Some (t', true)) /\
+       length (Tree.n_children patches) = 8%nat
+   | _ => False
+   end) /\
+  GenPatchHeapDefs.cJSONUtils_GeneratePatchesCaseSensitive nofail None (Some 20%positive) gx_heap2 = Ret (None, gx_heap2) /\
+  GenPatchHeapDefs.cJSONUtils_GeneratePatches nofail (Some 1%positive) None gx_heap2 = Ret (None, gx_heap2) /\
+  elements (lib_live gx_heap2 ∖ lib_live gx_gen_after) = [] /\
+  out_val gx_apply_run = Some 0 /\
+  (match out_val (CoreOps.dump_node 50 gx_dup_id gx_apply_after) with
+   | Some (Some (d, true)) => Rfc6902.doc_eqb d gx_vto = true /\ Rfc6902.doc_eqb gx_vto d = true
+   | _ => False
+   end) /\
+  out_val (CoreOps.dump_node 50 (Some 20%positive) gx_apply_after) = out_val (CoreOps.dump_node 50 (Some 20%positive) gx_gen_after).
+Proof. exact gx_stage6_runs. Qed.
+Print Assumptions C17_heap_nonvacuous_run.
+Theorem C17_heap_nonvacuous_run_is :
+  gx_gen_run = GenPatchHeapDefs.cJSONUtils_GeneratePatchesCaseSensitive nofail (Some 1%positive) (Some 20%positive) gx_heap2 /\
+  gx_gen_after = out_heap gx_gen_run gx_heap2 /\
+  gx_dup_run = cJSON_Duplicate nofail (Some 1%positive) true gx_gen_after /\ gx_dup_after = out_heap gx_dup_run gx_gen_after /\
+  gx_apply_run = PatchHeapApplyDefs.cJSONUtils_ApplyPatchesCaseSensitive nofail gx_dup_id (Some 1000%positive) gx_dup_after /\
+  gx_apply_after = out_heap gx_apply_run gx_dup_after /\
+  gx_vfrom = reify gx_St gx_from /\ gx_vto = reify gx_St gx_to.
+Proof. exact (conj eq_refl (conj eq_refl (conj eq_refl (conj eq_refl (conj eq_refl (conj eq_refl (conj eq_refl eq_refl))))))). Qed.
+
+(** … [C17_heap_refines] and [C17_heap_roundtrip] instantiated on that heap *)
+Theorem C17_heap_nonvacuous_instance :
+  exists h' F' res tf' tu',
+    generate_patches nofail (Some 1%positive) (Some 20%positive) true gx_heap2 = Ret (Some (tid res), h') /\
+    MInv h' (F' ++ [res]) /\ NoLeak h' (F' ++ [res]) /\
+    find_tree 1%positive F' = Some tf' /\ find_tree 20%positive F' = Some tu' /\ treord gx_from tf' /\ treord gx_to tu' /\
+    PatchDefs.generate_patches (reify (h_str gx_heap2) gx_from) (reify (h_str gx_heap2) gx_to) true =
+      Ok (reify (h_str h') res, reify (h_str h') tf', reify (h_str h') tu').
+Proof. exact gx_refines_instance. Qed.
+Print Assumptions C17_heap_nonvacuous_instance.
+Theorem C17_heap_nonvacuous_roundtrip_instance :
+  exists h1 F1 res h2 dup h3 docT arrT,
+    GenPatchHeapDefs.cJSONUtils_GeneratePatchesCaseSensitive nofail (Some 1%positive) (Some 20%positive) gx_heap2 = Ret (Some (tid res), h1) /\
+    MInv h1 (F1 ++ [res]) /\ NoLeak h1 (F1 ++ [res]) /\
+    cJSON_Duplicate nofail (Some 1%positive) true h1 = Ret (Some (tid dup), h2) /\
+    PatchHeapApplyDefs.cJSONUtils_ApplyPatchesCaseSensitive nofail (Some (tid dup)) (Some (tid res)) h2 = Ret (0, h3) /\
+    MInv h3 (F2 F1 [] [] docT arrT) /\ NoLeak h3 (F2 F1 [] [] docT arrT) /\ tid docT = tid dup /\
+    Rfc6902.doc_eq (reify (h_str h3) docT) (reify (h_str gx_heap2) gx_to).
+Proof. exact gx_roundtrip_instance. Qed.
+Print Assumptions C17_heap_nonvacuous_roundtrip_instance.
